@@ -140,3 +140,24 @@ def _(v):
     v.prove("none_is_numpy", get_backend(None) is numpy)
     v.prove("string_imports", get_backend("sympy") is sympy and get_backend("math") is math)
     v.prove("module_passthrough", get_backend(math) is math)
+
+
+@harness("C17", "array_time_axis_not_modified", functions=["chempy.kinetics.integrated:dimerization_irrev", "chempy.kinetics.integrated:pseudo_irrev", "chempy.kinetics.integrated:pseudo_rev",
+                                                           "chempy.kinetics.integrated:binary_irrev", "chempy.kinetics.integrated:binary_rev", "chempy.kinetics.integrated:unary_irrev_cstr",
+                                                           "chempy.kinetics.integrated:binary_irrev_cstr"], kind="data")
+def _(v):
+    """the closed forms are evaluated on numpy time axes in practice: the caller's array is left as it was, a second evaluation on the same
+    axis gives the same curve, and the curve starts at the given initial state (also with the rarely used t0)"""
+    import numpy as np
+    from chempy.kinetics import integrated as I
+    from contracts._purity import prove_pure
+    t = lambda lo=0.0: (lambda: np.linspace(lo, lo + 2.0, 5))
+    r = prove_pure(v, "dimerization_irrev.t0", I.dimerization_irrev, lambda: ((t(1.0)(), 0.4, 3.0), {"t0": 1.0}))
+    v.prove("dimerization_irrev.t0.starts_at_the_initial_concentration", abs(float(r[0]) - 3.0) < 1e-12 and abs(float(r[-1]) - 1 / (1 / 3.0 + 2 * 0.4 * 2.0)) < 1e-12)
+    prove_pure(v, "dimerization_irrev", I.dimerization_irrev, lambda: ((t()(), 0.4, 3.0), {}))
+    prove_pure(v, "pseudo_irrev", I.pseudo_irrev, lambda: ((t()(), 0.3, 0.1, 2.0, 0.5), {"backend": np}))
+    prove_pure(v, "pseudo_rev", I.pseudo_rev, lambda: ((t()(), 0.3, 0.2, 0.1, 2.0, 0.5), {"backend": np}))
+    prove_pure(v, "binary_irrev", I.binary_irrev, lambda: ((t()(), 0.3, 0.1, 2.0, 0.5), {"backend": np}))
+    prove_pure(v, "binary_rev", I.binary_rev, lambda: ((t()(), 0.3, 0.2, 0.1, 2.0, 0.5), {"backend": np}))
+    prove_pure(v, "unary_irrev_cstr", I.unary_irrev_cstr, lambda: ((t()(), 0.3, 1.5, 0.2, 2.5, 0.4, 0.7), {"backend": np}))
+    prove_pure(v, "binary_irrev_cstr", I.binary_irrev_cstr, lambda: ((t()(), 0.3, 1.5, 0.2, 2.5, 0.4, 0.7), {"n": 2, "backend": np}))
